@@ -236,7 +236,7 @@ class Exporter:
                     pad = rng.randrange(0, min(4, size)) if size > 0 else 0
                     sets.append({"data": {"id": tid, "recs": recs, "pad": hx(bytes(pad))}})
                 else:
-                    n = rng.choice([1, 1, 1, 2])
+                    n = 1 if self.lossless else rng.choice([1, 1, 1, 1, 1, 2])
                     recs = [v9_opt_record(rng, t) for _ in range(n)]
                     sets.append({"data": {"id": tid, "recs": recs, "pad": hx(bytes(rng.choice([0, 0, 1, 2, 3])))}})
         return {"v9": {"m": {"count": len(sets), "sysUpTime": rnat(rng, 4), "unixSecs": rnat(rng, 4), "seq": rnat(rng, 4), "sourceId": rnat(rng, 4), "sets": sets}}}
@@ -248,13 +248,13 @@ class Exporter:
         for _ in range(k):
             r = rng.random()
             if r < 0.35 or not self.ip:
-                nt = 1 if self.simple_ipfix else rng.choice([1, 1, 1, 1, 2, 3])
+                nt = 1 if self.simple_ipfix else rng.choice([1] * 12 + [2, 3])
                 ts = [ip_template(rng, self.new_id(), lossless=self.lossless, varlen=not self.lossless, enterprise=not self.lossless, common=self.common) for _ in range(nt)]
                 for t in ts:
                     self.ip[t["id"]] = ("t", t)
                 sets.append({"templates": {"ts": ts, "pad": ""}})
             elif r < 0.45:
-                nt = 1 if self.simple_ipfix else rng.choice([1, 1, 1, 2])
+                nt = 1 if self.simple_ipfix else rng.choice([1] * 10 + [2])
                 ts = []
                 for _ in range(nt):
                     t = ip_template(rng, self.new_id(), lossless=self.lossless, varlen=not self.lossless, enterprise=not self.lossless)
@@ -479,7 +479,7 @@ def fam_isolation(rng, n):
     two parsers fed their histories alone; fixed-format packets / disallowed versions never touch the caches"""
     out = []
     for _ in range(n):
-        exa, exb = Exporter(rng), Exporter(rng)
+        exa, exb = Exporter(rng, lossless=True, simple_ipfix=True), Exporter(rng, lossless=True, simple_ipfix=True)
         ca = [rand_packets(rng, exa, rng.randrange(1, 3)) for _ in range(rng.randrange(2, 5))]
         cb = [rand_packets(rng, exb, rng.randrange(1, 3)) for _ in range(rng.randrange(2, 5))]
         ops = [op_new(0), op_new(1), op_new(2), op_new(3)]
@@ -501,18 +501,18 @@ def fam_isolation(rng, n):
         ops.append(op_parse(0, msgs=[msg_v5(rng, 2), msg_v7(rng, 1)], want=[]))
         ops.append({"op": "assert_unchanged", "a": 0, "key": "C06"})
         ops.append({"op": "allowed", "p": 0, "set": [5, 7]})
-        ops.append(op_parse(0, msgs=rand_packets(rng, Exporter(rng), 2, versions=(9, 10)), want=[]))
+        ops.append(op_parse(0, msgs=rand_packets(rng, Exporter(rng, lossless=True, simple_ipfix=True), 2, versions=(9, 10)), want=[]))
         ops.append({"op": "assert_unchanged", "a": 0, "key": "C06"})
         out.append(("isolation", ops))
     return out
 
 
-def fam_redefine(rng, n):
+def fam_redefine(rng, n, lossless=False):
     """C06: redefinitions of one id with different field lists (same kind and across kinds),
     data sets before and after, under splits into calls"""
     out = []
     for _ in range(n):
-        ex = Exporter(rng)
+        ex = Exporter(rng, lossless=lossless, simple_ipfix=lossless)
         ex.new_id = lambda: rng.choice([256, 257])      # force collisions
         ops = [op_new(0)]
         for _ in range(rng.randrange(3, 8)):
